@@ -241,6 +241,13 @@ def problem_class(mode, extra_bases=()):
             self._goal_objs = None
             super().__init__(inst=inst, **kw)
 
+        def pre(self):
+            if self.inst.get("caching_qpsol"):
+                from rtctools.optimization.single_pass_goal_programming_mixin import CachingQPSol
+
+                self._qpsol = CachingQPSol()
+            super().pre()
+
         def _all_goals(self):
             if self._goal_objs is None:
                 ts = self.inst["times"]
@@ -248,10 +255,10 @@ def problem_class(mode, extra_bases=()):
             return self._goal_objs
 
         def goals(self):
-            return [g for g in self._all_goals() if not g.spec["path"]]
+            return [g for g in self._all_goals() if not g.spec["path"]] + super().goals()
 
         def path_goals(self):
-            return [g for g in self._all_goals() if g.spec["path"]]
+            return [g for g in self._all_goals() if g.spec["path"]] + super().path_goals()
 
         def goal_programming_options(self):
             o = super().goal_programming_options()
@@ -265,16 +272,23 @@ def problem_class(mode, extra_bases=()):
             o = super().solver_options()
             o["print_time"] = False
             o["error_on_fail"] = False
-            if self.inst.get("solver", "highs") == "highs":
-                o["casadi_solver"] = self.inst.get("_casadi_solver", "qpsol")
-                o["solver"] = "highs"
+            solver = self.inst.get("solver", "highs")
+            if solver != "ipopt":
+                o["casadi_solver"] = self._qpsol if self.inst.get("caching_qpsol") else "qpsol"
+                o["solver"] = solver
                 o.pop("ipopt", None)
-                o["highs"] = {"output_flag": False, "primal_feasibility_tolerance": 1e-9,
-                              "dual_feasibility_tolerance": 1e-9}
+                if solver == "highs":
+                    o["highs"] = {"output_flag": False, "primal_feasibility_tolerance": 1e-9,
+                                  "dual_feasibility_tolerance": 1e-9}
+                elif solver == "qpoases":
+                    o["printLevel"] = "none"
+                elif solver == "osqp":
+                    o["osqp"] = {"verbose": False, "eps_abs": 1e-9, "eps_rel": 1e-9, "max_iter": 200000}
             else:
                 o["ipopt"]["print_level"] = 0
                 o["ipopt"]["tol"] = 1e-10
                 o["ipopt"]["sb"] = "yes"
+                o["ipopt"]["bound_relax_factor"] = 0.0
             if self.inst.get("expand"):
                 o["expand"] = True
             return o
